@@ -455,8 +455,9 @@ def edge_facts(b, sbb, succ, depth=0):
     d = def_rvalue(b, t['discr'])
     if d and d[0] == 'rv' and d[3]['k'] == 'discr':
         pl = d[3]['place']
-        idx = _variant_index(b, t, v, pl['local']) if not pl['proj'] else (v[0] if isinstance(v, list) and len(v) == 1 else None)
-        if idx is not None and not pl['proj']:
+        only_deref = all(e['k'] == 'deref' for e in pl['proj'])
+        idx = _variant_index(b, t, v, pl['local']) if only_deref else None
+        if idx is not None:
             return [('variant', pl['local'], idx)]
     return []
 
